@@ -232,15 +232,46 @@ def s_io(ex, st, recv, args, kw, e):
     return Coll(lambda y: z3.Or(a.mem(y), b.mem(y)))
 
 
+def s_transitive_fanin(ex, st, recv, args, kw, e):
+    """union of networkx.ancestors(graph, n) over n in ns (the meaning of `ancestors` is networkx's assumed contract)"""
+    r = ex.reach(st.g(recv))
+    return _union_over(ex, st, recv, args, lambda g, n, y: r(y, n))
+
+
+def s_transitive_fanout(ex, st, recv, args, kw, e):
+    r = ex.reach(st.g(recv))
+    return _union_over(ex, st, recv, args, lambda g, n, y: r(n, y))
+
+
+def s_is_cyclic(ex, st, recv, args, kw, e):
+    """true exactly when networkx says the graph is not a DAG (what `is a DAG` means is networkx's assumed contract)"""
+    return z3.Not(ex.acyclic(st.g(recv)))
+
+
+def _restricted(ex, st, recv, args, kw, e, closure, base):
+    """startpoints(ns) / endpoints(ns): the startpoints (endpoints) among ns and its ancestors (descendants);
+    a falsy ns (None, '', empty collection) means the whole circuit"""
+    ns = args[0] if args else kw.get("ns", NONE)
+    if ns is NONE or isinstance(ns, type(NONE)):
+        return base(ex, st, recv, [], {}, e)
+    # a str is wrapped into a one-element list by the code, which is truthy even for the empty string
+    if isinstance(ns, (NameV, StrLit)) or ex.choice(st, ex.truthy(ns)):
+        names = _names(ex, ns)
+        clo = closure(ex, st, recv, [ns], {}, e)
+        b = base(ex, st, recv, [], {}, e)
+        return Coll(lambda y: z3.And(z3.Or(names.mem(y), clo.mem(y)), b.mem(y)), is_list=False)
+    return base(ex, st, recv, [], {}, e)
+
+
 def s_startpoints0(ex, st, recv, args, kw, e):
     if args or kw:
-        raise Unsupported("startpoints(ns) variant")
+        return _restricted(ex, st, recv, args, kw, e, s_transitive_fanin, s_startpoints0)
     return s_filter_type(ex, st, recv, [StrSet(["input", "bb_output"])], {}, e)
 
 
 def s_endpoints0(ex, st, recv, args, kw, e):
     if args or kw:
-        raise Unsupported("endpoints(ns) variant")
+        return _restricted(ex, st, recv, args, kw, e, s_transitive_fanout, s_endpoints0)
     g = st.g(recv)
     x = ex.ctx.fresh_name("fx")
     ex.split_raise(st, z3.Exists([x], z3.And(g.node(x), z3.Not(z3.Select(g.hasty, x)))), "KeyError")
@@ -254,6 +285,9 @@ SUMMARIES.update({
     "Circuit.inputs": s_inputs,
     "Circuit.outputs": s_outputs,
     "Circuit.io": s_io,
+    "Circuit.is_cyclic": s_is_cyclic,
+    "Circuit.transitive_fanin": s_transitive_fanin,
+    "Circuit.transitive_fanout": s_transitive_fanout,
     "Circuit.startpoints": s_startpoints0,
     "Circuit.endpoints": s_endpoints0,
 })
